@@ -247,6 +247,20 @@ static void composition(const std::string &comp, const ptree &rt_base,
             if (b.threw) vf::fail("unknown.exception", key, comp + ": key " + pre + "c14_no_such_key made the construction raise: " + b.what);
             else if (!ok) vf::fail("unknown.not_reported", key, comp + ": run-time key '" + pre + "c14_no_such_key' -> hook saw [" + seen + "]");
             vf::count("runtime_unknown_key_cases");
+            // an unknown SECTION (a key that has children: a misspelt 'relax', 'aggr', ... or any extra subtree) belongs to no
+            // component: its name has to reach the hook as well, otherwise everything inside it is dropped silently
+            {
+                ptree rs = rt_base;
+                rs.put(pre + "c14_no_such_section.inner", 1);
+                c14::unknown_log().clear();
+                Outcome b2 = run_one<RuntimeSolver>(s, rs);
+                bool ok2 = !c14::unknown_log().empty();
+                std::string seen2;
+                for (auto &u : c14::unknown_log()) { ok2 &= (u == "c14_no_such_section"); if (seen2.size() < 200) seen2 += u + ","; }
+                if (b2.threw) vf::fail("unknown.exception", key, comp + ": section " + pre + "c14_no_such_section made the construction raise: " + b2.what);
+                else if (!ok2) vf::fail("unknown.section_not_reported", key, comp + ": run-time section '" + pre + "c14_no_such_section' (with one child) -> hook saw [" + seen2 + "]");
+                vf::count("runtime_unknown_section_cases");
+            }
             vf::nontrivial(vf::hstr(key));
         }
         std::vector<std::string> sel; selector_paths(rt_base, "", sel);
